@@ -142,6 +142,7 @@ def membership_snapshot(world):
     for ln in ls.layerOrder:
         layer = ls[ln]
         m[(id(layer), "Glyph")] = set(layer.keys())
+        m[(id(layer), "GlyphIdent")] = {n: id(g) for n, g in layer._glyphs.items()}
         for g in list(layer._glyphs.values()):
             if g._shallowLoadedContours is None:
                 m[(id(g), "Contour")] = [id(x) for x in g._contours]
@@ -222,6 +223,13 @@ def oracle(world, op, status, snap, members, events):
                     was_in = subj in mem
                     if ev.obs != was_in:
                         v("will-after-change", ev, member_at_will=ev.obs, member_before=was_in)
+                if ev.name == "Layer.GlyphWillBeAdded" and (id(ev.sender), "GlyphIdent") in members:
+                    # replacing a glyph: the OLD object must still be filed under the name at will time
+                    before_id = members[(id(ev.sender), "GlyphIdent")].get(ev.subject)
+                    first = not any(e.name == ev.name and e.sender is ev.sender and e.subject == ev.subject
+                                    for e in events[:i])
+                    if first and ev.ident != before_id and not (before_id is None and ev.ident is None):
+                        v("will-after-change", ev, object_at_will=ev.ident, object_before=before_id)
             elif not ev.has_payload:
                 before = members.get((id(ev.sender), fam if fam != "Default" else "DefaultLayer"), _MISSING)
                 if ev.name == "LayerSet.DefaultLayerWillChange":
@@ -249,6 +257,10 @@ def oracle(world, op, status, snap, members, events):
                     ok = d.obs is True if isinstance(ev.subject, str) else any(x is ev.subject for x in (d.members or []))
                     if not ok:
                         v("did-before-change", ev)
+                    if ev.name == "Layer.GlyphWillBeAdded" and (id(ev.sender), "GlyphIdent") in members:
+                        before_id = members[(id(ev.sender), "GlyphIdent")].get(ev.subject)
+                        if d.ident is None or d.ident == before_id:
+                            v("did-before-change", ev, object_at_did=d.ident, object_before=before_id)
                 if kind == "del":
                     ok = d.obs is False if isinstance(ev.subject, str) else not any(x is ev.subject for x in (d.members or []))
                     if not ok:
